@@ -39,6 +39,8 @@ structure Lease where
   irrevocable : Bool
   /-- `nonexpiringToken()`: a root token whose auth has no TTL -/
   rootNonExp : Bool
+  /-- namespace of the lease (0 = root; the lease id carries it as its suffix) -/
+  ns : Nat := 0
   deriving DecidableEq, Repr
 
 inductive FailMode where
@@ -58,6 +60,14 @@ structure St where
   frozen : Bool
   next : Nat
   outOfFuel : Bool
+  /-- `restoreLoaded`: (lease id, its namespace) — "this lease already has its timer, a restore may skip it" -/
+  marks : List (Nat × Nat) := []
+  /-- the global restore-mode counter -/
+  restoreMode : Nat := 0
+  /-- sealed namespaces -/
+  sealed : List Nat := []
+  /-- namespace restores in flight: (namespace, the one lease of it that has not been handled yet) -/
+  held : List (Nat × Nat) := []
   deriving DecidableEq, Repr
 
 def St.init : St :=
@@ -89,6 +99,24 @@ def updatePending (s : St) (l : Lease) : St :=
 def untrack (s : St) (id : Nat) : St :=
   { s with pending := rm s.pending id, nonexpiring := rm s.nonexpiring id, irrevocable := rm s.irrevocable id }
 
+def marked (s : St) (id : Nat) : Bool := s.marks.any (·.1 == id)
+
+/-- the side effect of `loadEntry` on an entry it found while ANY restore is in flight (restore mode is a global
+counter): unless the lease is already marked, mark it in `restoreLoaded` and `updatePending` it -/
+def loadMark (s : St) (l : Lease) : St :=
+  if s.restoreMode > 0 && !marked s l.id then updatePending { s with marks := s.marks ++ [(l.id, l.ns)] } l else s
+
+/-- `processRestore` (always called with restore mode on): a marked lease is skipped, the others are loaded, marked
+and tracked -/
+def processRestore (s : St) (l : Lease) : St :=
+  if marked s l.id then s else updatePending { s with marks := s.marks ++ [(l.id, l.ns)] } l
+
+/-- the drain at the end of a namespace restore: the marks of THAT namespace go -/
+def drainMarks (s : St) (ns : Nat) : St := { s with marks := s.marks.filter (·.2 != ns) }
+
+/-- the lease cannot be touched: its namespace is sealed, or its restore is the one held in flight -/
+def unreachable (s : St) (l : Lease) : Bool := s.sealed.contains l.ns || s.held.any (·.2 == l.id)
+
 /-- `le.ExpireTime.Before(now)` -/
 def expired (l : Lease) (now : Int) : Bool :=
   match l.expiry with
@@ -99,7 +127,7 @@ def expired (l : Lease) (now : Int) : Bool :=
 without TTL takes the fast path there: its lease times are not consulted -/
 def tokenLive (s : St) (id : Nat) (now : Int) : Bool :=
   match find? s id with
-  | some l => l.isAuth && (l.rootNonExp || !expired l now)
+  | some l => l.isAuth && !unreachable s l && (l.rootNonExp || !expired l now)
   | none => false
 
 /-- one call of the backend's revoke handler under the current failure mode: (succeeded, new state) -/
@@ -117,12 +145,15 @@ def lazyRevoke (s : St) (id : Nat) (now : Int) : St :=
   match find? s id with
   | none => s
   | some l =>
+    if unreachable s l then s else                  -- sealed namespace: loadEntry fails; held restore: it would wait
+    let s := loadMark s l
     let l := { l with expiry := some now }
     updatePending (putLease s l) l
 
 /-- `revokeTree` + `RevokeByToken` for token lease `id`: the leases it issued are lazily revoked (by ascending id),
 its own lease entry is deleted and untracked -/
 def revokeToken (s : St) (id : Nat) (now : Int) : St :=
+  let s := match find? s id with | some l => loadMark s l | none => s      -- Revoke → revokeCommon → loadEntry
   let owned := (s.stored.filter fun l => !l.isAuth && l.owner == id).map (·.id)
   let s := owned.foldl (fun s o => lazyRevoke s o now) s
   untrack (delLease s id) id
@@ -136,6 +167,7 @@ def markIrrevocable (s : St) (l : Lease) : St :=
 def secretJob : Nat → St → Lease → Nat → St
   | 0, s, _, _ => { s with outOfFuel := true }
   | fuel+1, s, l, attempts =>
+    let s := loadMark s l                          -- Revoke → revokeCommon → loadEntry
     let (ok, s) := backendRevoke s l.id
     if ok then untrack (delLease s l.id) l.id
     else
@@ -148,6 +180,7 @@ def secretJob : Nat → St → Lease → Nat → St
 def revokeSync (s : St) (l : Lease) (now : Int) : Bool × St :=
   if l.isAuth then (true, revokeToken s l.id now)
   else
+    let s := loadMark s l
     let (ok, s) := backendRevoke s l.id
     if ok then (true, untrack (delLease s l.id) l.id) else (false, s)
 
@@ -217,6 +250,8 @@ def renew (s : St) (id : Nat) (incr : Int) (now : Int) : St × Out :=
   match find? s id with
   | none => (s, .err "notfound")
   | some l =>
+    if unreachable s l then (s, .err "sealed") else
+    let s := loadMark s l                          -- loadEntry comes before every check
     match renewableCheck l now with
     | some e => (s, .err e)
     | none =>
@@ -234,6 +269,7 @@ def tokRenew (s : St) (id : Nat) (incr : Int) (now : Int) : St × Out :=
   match find? s id with
   | none => (s, .err "notoken")
   | some l =>
+    let s := loadMark s l
     match renewableCheck l now with
     | some e => (s, .err e)
     | none =>
@@ -250,6 +286,7 @@ def revoke (s : St) (id : Nat) (sync : Bool) (now : Int) : St × Out :=
   match find? s id with
   | none => (s, .ok)
   | some l =>
+    if unreachable s l then (s, .err "sealed") else
     if sync then
       match revokeSync s l now with
       | (true, s) => (settle (settleFuel s) s now, .ok)
@@ -269,6 +306,8 @@ def age (s : St) (id : Nat) (secs : Int) (now : Int) : St × Out :=
   match find? s id with
   | none => (s, .err "notfound")
   | some l =>
+    if unreachable s l then (s, .err "sealed") else
+    let s := loadMark s l
     let l := { l with issue := l.issue - secs, expiry := l.expiry.map (· - secs) }
     let s := updatePending (putLease s l) l
     (settle (settleFuel s) s now, .ok)
@@ -279,9 +318,76 @@ def restore (stored : List Lease) (s : St) : St :=
   stored.foldl updatePending s
 
 def restart (s : St) (now : Int) : St :=
-  let s := { s with pending := [], irrevocable := [], nonexpiring := [], frozen := false }
-  let s := restore s.stored s
+  -- a new manager: no marks, restore mode off afterwards, no namespace restore in flight; the global `Restore` walks
+  -- the namespaces that are not sealed
+  let s := { s with pending := [], irrevocable := [], nonexpiring := [], frozen := false, marks := [], restoreMode := 0,
+                    held := [] }
+  let s := restore (s.stored.filter fun l => !s.sealed.contains l.ns) s
   settle (settleFuel s) s now
+
+/-- a secret lease issued in namespace `ns` to the root token (no owning token lease) -/
+def nsReg (s : St) (ns : Nat) (ttl max : Int) (renewable : Bool) (now : Int) : St × Out :=
+  if s.sealed.contains ns then (s, .err "sealed") else
+  match calcTTL { now, start := now, sysMax, sysDefault, increment := 0, backendTTL := ttl, period := 0,
+                  backendMax := max, explicitMax := 0 } with
+  | .ok t _ =>
+    let l : Lease := { id := s.next, isAuth := false, owner := s.next, issue := now, expiry := some (now + t), bttl := ttl,
+                       bmax := max, emax := 0, renewable, irrevocable := false, rootNonExp := false, ns }
+    let s := updatePending (putLease { s with next := s.next + 1 } l) l
+    (s, .okLease l.id t)
+  | _ => (s, .err "ttl")
+
+def nsLeases (s : St) (ns : Nat) : List Lease := s.stored.filter (·.ns == ns)
+
+/-- `SealNamespace` → `StopNamespace`: the namespace's leases leave every tracking map (they stay in storage) and its
+marks in `restoreLoaded` are cleared — unconditionally -/
+def sealNs (s : St) (ns : Nat) : St × Out :=
+  if ns == 0 || s.sealed.contains ns || s.held.any (·.1 == ns) then (s, .err "seal") else
+  let s := (nsLeases s ns).foldl (fun s l => untrack s l.id) s
+  (drainMarks { s with sealed := s.sealed ++ [ns] } ns, .ok)
+
+/-- a namespace restore starts: the namespace is unsealed, restore mode goes up, and every lease of the namespace is
+"collected, not handled yet" (`held`) -/
+def unsealStart (s : St) (ns : Nat) : St :=
+  { s with sealed := s.sealed.filter (· != ns), restoreMode := s.restoreMode + 1,
+           held := s.held ++ (nsLeases s ns).map fun l => (ns, l.id) }
+
+/-- a restore worker handles one collected lease: `processRestore` -/
+def releaseRestore (s : St) (l : Lease) : St :=
+  processRestore { s with held := s.held.filter (·.2 != l.id) } l
+
+/-- `UnsealNamespace` → `RestoreNamespace`: restore mode on, `processRestore` for every lease of the namespace, the
+namespace's marks drained, restore mode off -/
+def unsealNs (s : St) (ns : Nat) (now : Int) : St × Out :=
+  if !s.sealed.contains ns then (s, .err "unseal") else
+  let s := unsealStart s ns
+  let s := (nsLeases s ns).foldl releaseRestore s
+  let s := drainMarks { s with restoreMode := s.restoreMode - 1 } ns
+  (settle (settleFuel s) s now, .ok)
+
+/-- the first part of an unseal whose restore is held in flight on lease `h` of the namespace: every other lease of
+the namespace is handled -/
+def unsealBegin (s : St) (ns h : Nat) (now : Int) : St × Out :=
+  if !s.sealed.contains ns || !(nsLeases s ns).any (·.id == h) then (s, .err "unseal") else
+  let s := unsealStart s ns
+  let s := ((nsLeases s ns).filter (·.id != h)).foldl releaseRestore s
+  (settle (settleFuel s) s now, .ok)
+
+/-- the restore is released: the held lease is handled, the namespace's marks are drained, restore mode goes down -/
+def unsealEnd (s : St) (ns : Nat) (now : Int) : St × Out :=
+  match s.held.find? (·.1 == ns) with
+  | none => (s, .err "unseal")
+  | some (_, h) =>
+    let s := match find? s h with
+      | some l => releaseRestore s l
+      | none => { s with held := s.held.filter (·.2 != h) }
+    let s := drainMarks { s with restoreMode := s.restoreMode - 1 } ns
+    (settle (settleFuel s) s now, .ok)
+
+/-- storage is a key-value map: one entry per lease id (first wins), and fresh ids stay fresh -/
+def dedupe : List Lease → List Lease
+  | [] => []
+  | l :: rest => l :: (dedupe rest).filter (·.id != l.id)
 
 /-- the operations of a history -/
 inductive Op where
@@ -296,6 +402,11 @@ inductive Op where
   | setFail (m : FailMode)
   | freeze (on : Bool)
   | restart (now : Int)
+  | nsReg (ns : Nat) (ttl max : Int) (renewable : Bool) (now : Int)
+  | sealNs (ns : Nat)
+  | unsealNs (ns : Nat) (now : Int)
+  | unsealBegin (ns h : Nat) (now : Int)
+  | unsealEnd (ns : Nat) (now : Int)
   /-- a crash at ANY point of any operation followed by a restart: storage holds an arbitrary set of lease entries
   (in particular any prefix of the writes of the interrupted operation), memory is rebuilt from it -/
   | crashRestart (stored : List Lease) (now : Int)
@@ -312,8 +423,15 @@ def applyOp (s : St) : Op → St × Out
   | .age id secs now => age s id secs now
   | .setFail m => ({ s with fail := m }, .ok)
   | .freeze on => ({ s with frozen := on }, .ok)
-  | .restart now => (restart s now, .ok)
-  | .crashRestart stored now => (restart { s with stored := stored } now, .ok)
+  | .restart now => if s.restoreMode > 0 then (s, .err "busy") else (restart s now, .ok)   -- `Stop` waits for restores
+  | .nsReg ns ttl max ren now => nsReg s ns ttl max ren now
+  | .sealNs ns => sealNs s ns
+  | .unsealNs ns now => unsealNs s ns now
+  | .unsealBegin ns h now => unsealBegin s ns h now
+  | .unsealEnd ns now => unsealEnd s ns now
+  | .crashRestart stored now =>
+    let stored := dedupe stored
+    (restart { s with stored := stored, next := stored.foldl (fun n l => max n (l.id + 1)) s.next } now, .ok)
 
 def run (s : St) : List Op → St
   | [] => s
